@@ -104,6 +104,9 @@ func preciseJobs(scribble int64) (quick, thorough []*Job) {
 		quick = append(quick, &Job{Pkg: "", Func: "ZZ_C10_ReadFrom", Args: c, Bounds: brf})
 	}
 	thorough = append(thorough, &Job{Pkg: "", Func: "ZZ_C10_ReadFrom", Args: []int64{3, 1, 3, 1}, Bounds: brf})
+	for _, c := range [][]int64{{2, 0}, {2, 2}, {2, 4}, {2, 1}, {2, 5}, {2, 8}} {
+		quick = append(quick, &Job{Pkg: "", Func: "ZZ_C10_EmptyWrite", Args: c, PoolPrecise: true, Bounds: "an empty payload that is a view of a caller-owned 1024-capacity scratch buffer through each entry point, the sender recycles, a second payload follows while the caller keeps using its buffer; precise pool model"})
+	}
 	thorough = append(thorough, &Job{Pkg: "", Func: "ZZ_C10_Recycle", Args: []int64{6, 3, 3, 5}, Bounds: br, PoolPrecise: true})
 	return
 }
